@@ -74,8 +74,9 @@ def tfc(n, rnd):
         nodes.append(x); return len(nodes)
     gl = add(node("Fw", [item([2])]))
     gr = add(node("Fw", [item([3])]))
-    # member 0: acc = selector; then + LEFT (selector = 0) or + RIGHT (selector # 0); 1 iff acc >= 3
-    m0 = add(node("Nm", [item([1]), item([gl], g=1, gc=0), item([gr], g=2, gc=0)], post=3))
+    # member 0: acc = selector; then + LEFT (acc = 0) or + RIGHT (acc = 1; LEFT = 3 makes acc 3, so only one of
+    # the two fires); 1 iff acc >= 3
+    m0 = add(node("Nm", [item([1]), item([gl], g=1, gc=0), item([gr], g=1, gc=1)], post=3))
     members = [m0] + [add(node("Nm", [item([1])], post=9)) for _ in range(n - 1)]
     total = add(node("Nm", [item(members, mode=2)]))
     top = add(node("Nm", [item([total], c=1)]))
